@@ -223,12 +223,17 @@ def playback(scratch_dir, unit, h, meta, logdir, timeout):
         except subprocess.TimeoutExpired:
             return None, logp, []
     log = _clean(open(logp).read())
-    m = re.search(r"let concrete_vals: Vec<Vec<u8>> = vec!\[(.*?)\n\s*\];", log, re.S)
+    # Kani prints one playback test per failed check AND per satisfied cover: keep them all, the caller replays
+    # each until one reproduces the failure natively
     vals = None
-    if m:
-        vals = []
+    for m in re.finditer(r"let concrete_vals: Vec<Vec<u8>> = vec!\[(.*?)\n\s*\];", log, re.S):
+        one = []
         for vm in re.finditer(r"vec!\[([0-9, ]*)\]", m.group(1)):
-            vals.append([int(x) for x in vm.group(1).split(",") if x.strip()])
+            one.append([int(x) for x in vm.group(1).split(",") if x.strip()])
+        if vals is None:
+            vals = []
+        if one not in vals:
+            vals.append(one)
     fails = []
     for cm in re.finditer(r"Check \d+: (\S+)\n\s*- Status: FAILURE\n\s*- Description: \"(.*)\"\n\s*- Location: (\S+)", log):
         fails.append({"check": cm.group(1), "description": cm.group(2), "location": cm.group(3)})
